@@ -7,57 +7,57 @@ ALL = ["C%02d" % i for i in range(1, 21)]
 # id -> dict(level, text, note, technique, design, engine, thorough=True)
 CHECKS = {
  "C15": dict(level="model_checking",
-  text="Discrete-event exploration of the REAL ticker goroutines under the virtual clock up to 6 x update_interval for 263 (quick) / 6690 (thorough) configurations: instances (1-3, own work_dirs) x interval mixes x phase offsets {0, 1s, I/4, I/2-1s, I/2+1s} x download duration {0, 5s; thorough also I/3} x outcome scripts over {refused, bad signature, garbage}* ; ok (5 quick / 10 thorough) x signature mode x fetch mode x source {crl_files, crl_urls, CDP}, plus a handshake naming a new distribution point 2 / 7 minutes after a tick; thorough takes the full product for two and three instances too. Oracles with B = 2I + download x instances + 5s: (a) consecutive fetch attempts of every known location at most B apart (starvation), (b) a certificate revoked in a CRL obtainable since p is rejected after p+B, (c) configured CRLs are in force when Provision returns.",
+  text="Discrete-event exploration of the REAL ticker goroutines under the virtual clock up to 6 x update_interval for 263 (quick) / 6690 (thorough) configurations: instances (1-3, own work_dirs) x interval mixes x phase offsets {0, 1s, I/4, I/2-1s, I/2+1s} x download duration {0, 5s; thorough also I/3} x outcome scripts over {refused, bad signature, garbage}* ; ok (5 quick / 10 thorough) x signature mode x fetch mode x source {crl_files, crl_urls, CDP}, plus a handshake naming a new distribution point 2 / 7 minutes after a tick, new distribution points before every tick, and a crl_file replacement whose modification time is older; thorough takes the full product for two and three instances too. Oracles with B = 2I + download x instances + 5s: (a) consecutive fetch attempts of every known location at most B apart (starvation), (b) a certificate revoked in a CRL obtainable since p is rejected after p+B, (c) configured CRLs are in force when Provision returns.",
   note="Timers due at the same instant fire in registration order (not permuted). Liveness is checked up to the horizon only.",
   technique="explicit exploration of timer-driven histories of the implementation under a virtual clock (bounded-horizon liveness as a safety check)",
   design="DESIGN.md §4 C15", engine="vsched virtual clock + real ticker goroutines"),
  "C17": dict(level="exploration",
-  text="Entry counts N enumerated exhaustively in [0,256] and N = 2^k up to 2^15 (quick) / 2^18 (thorough), DER and PEM, through the real streaming reader with a live-heap invariant evaluated in intermediate states (every 64th entry: live(k) <= live(first) + 1 MiB); URL download with a lazily produced body and crl_file copy of 1 / 16 / 64 MiB (512 MiB thorough) with total allocation <= 4 MiB; whole path download -> parse -> LevelDB -> lookup with 2^19 (2^21 thorough) entries with live heap <= first + 24 MiB at 16 intermediate states; heap footprint (high-water mark of the heap obtained from the OS, so transient buffers count) of reading a 2^20-entry CRL in a fresh process <= 32 MiB for ordinary serials, PEM, and a generated CRL which contains no 0x0A octet before its signature; refresh path of a disk-backed validator in a fresh process for 2^18 and 2^20 entries: growth of the heap obtained from the OS and bytes allocated between consecutive effect points outside the per-entry loop must not depend on the size.",
+  text="Entry counts N enumerated exhaustively in [0,256] and N = 2^k up to 2^15 (quick) / 2^18 (thorough), DER and PEM, through the real streaming reader with a live-heap invariant evaluated in intermediate states (every 64th entry: live(k) <= live(first) + 1 MiB); URL download with a lazily produced body and crl_file copy of 1 / 16 / 64 MiB (512 MiB thorough) with total allocation <= 4 MiB; whole path download -> parse -> LevelDB -> lookup with 2^19 (2^21 thorough) entries with live heap <= first + 24 MiB at 16 intermediate states and <= 20 MiB growth over 32768 lookups spread over the key space; a consumer which refuses every entry from the 1000th on; heap footprint (high-water mark of the heap obtained from the OS, so transient buffers count) of reading a 2^20-entry CRL in a fresh process <= 32 MiB for ordinary serials, PEM, and a generated CRL which contains no 0x0A octet before its signature; refresh path of a disk-backed validator in a fresh process for 2^18 and 2^20 entries: growth of the heap obtained from the OS and bytes allocated between consecutive effect points outside the per-entry loop must not depend on the size.",
   note="Weakest claim: a resource bound for ALL N cannot be established by exploration; what is decided is absence of per-entry retention (>= ~50 B/entry on the disk path, any on the reader path) within the bound. The 10^6+ scale is extrapolated.",
   technique="bounded enumeration of the entry count with a heap invariant checked in intermediate states of the streaming loop",
   design="DESIGN.md §4 C17, §7", engine="heap-invariant monitor"),
  "C20": dict(level="exploration",
-  text="(1) 20 hostile location strings (path traversal, encoded separators, NUL/newline, 5000 chars, unicode, case variants, query, userinfo ...) alone and as ordered CDP pairs on both backends in a sandbox parent directory: every path passed to the os shim must lie inside work_dir, the tree outside is snapshotted (names, sizes, digests) and must not change, work_dir entries are only 64-hex ids / temp names, distinct locations get distinct stores. (2) k = 1..5 Provision/Cleanup cycles x backend x with/without configured CRLs x work_dir spelling (canonical, trailing slash, trailing /., ./ segment) under the virtual clock: every Provision succeeds, no repository goroutine survives Cleanup, no fetch after Cleanup when the clock advances 3 intervals, the work_dir registry is empty, no database handle is open, no residue. (3) startup sweep with 8 foreign names around the temp pattern, in work_dirs named plainly and with pattern metacharacters (crl[1], a*b?c, re(x)+.$, back\\slash): only crl_*_tmp entries disappear. (3b) Cleanup performed while a refresh is downloading (nothing of the finished refresh holds the work_dir), and exclusive registration (A live, B rejected and cleaned up, C still rejected, D accepted after A's Cleanup). (4) BFS over load / refresh histories with accepted and rejected documents (the C11 alphabet) to depth 4 (quick) / 6 (thorough): no temporary artefact after any completed event, no live store deleted.",
+  text="(1) 20 hostile location strings (path traversal, encoded separators, NUL/newline, 5000 chars, unicode, case variants, query, userinfo ...) alone and as ordered CDP pairs on both backends in a sandbox parent directory: every path passed to the os shim must lie inside work_dir, the tree outside is snapshotted (names, sizes, digests) and must not change, work_dir entries are only 64-hex ids / temp names, distinct locations get distinct stores. (2) k = 1..5 Provision/Cleanup cycles x backend x with/without configured CRLs x work_dir spelling (canonical, trailing slash, trailing /., ./ segment) under the virtual clock: every Provision succeeds, no repository goroutine survives Cleanup, no fetch after Cleanup when the clock advances 3 intervals, the work_dir registry is empty, no database handle is open, no residue. (3) startup sweep with 8 foreign names around the temp pattern, in work_dirs named plainly and with pattern metacharacters (crl[1], a*b?c, re(x)+.$, back\\slash): only crl_*_tmp entries disappear. (3b) life cycles whose distribution point never loads (garbage, down, background fetch pending), Cleanup performed while a refresh is downloading (nothing of the finished refresh holds the work_dir), and exclusive registration (A live, B rejected and cleaned up, C still rejected, D accepted after A's Cleanup). (4) BFS over load / refresh histories with accepted and rejected documents (the C11 alphabet) to depth 4 (quick) / 6 (thorough): no temporary artefact after any completed event, no live store deleted.",
   note="Foreign entries that do match crl_*_tmp are not judged. LevelDB-internal file names are not inspected (only that they stay under the store directory).",
   technique="bounded-exhaustive enumeration of location strings and life-cycle histories with file-system effect logging",
   design="DESIGN.md §4 C20", engine="vos effect log + sandbox tree snapshots + vsched"),
  "C12": dict(level="fault_enumeration",
-  text="Crash-point enumeration with real process death: for each disk-backed history (quick: first load accepted / rejected, refresh accepted / rejected; thorough adds truncated first load, fetch failure, two refreshes, rejected-then-accepted refresh, a second distribution point) a child process runs it and SIGKILLs itself at effect point k, for EVERY k (every os / LevelDB shim call of the history, plus after-effect points of rename / removeall); a second child restarts a fresh strict validator over the crashed work_dir with the origin down and reports the verdict vector of 6 probes and the directory listing. Every other crash image lives in a work_dir whose name contains pattern metacharacters. Second level (crash during recovery): for every such image and EVERY effect point j of the restart's Provision (startup sweep, opening stores) the restarting process dies too and a third process restarts. Oracle: loaded only with exactly the vector of a complete accepted CRL of that history, no crl_*_tmp and no stray entry after Provision, no store directory removed.",
+  text="Crash-point enumeration with real process death: for each disk-backed history (quick: first load accepted / rejected, refresh accepted / rejected; thorough adds truncated first load, fetch failure, two refreshes, rejected-then-accepted refresh, a second distribution point) a child process runs it and SIGKILLs itself at effect point k, for EVERY k (every os / LevelDB shim call of the history, plus after-effect points of rename / removeall); a second child restarts a fresh strict validator over the crashed work_dir with the origin down and reports the verdict vector of 6 probes and the directory listing. Every other crash image lives in a work_dir whose name contains pattern metacharacters; the restarted process provisions another validator instance first. Second level (crash during recovery): for every such image and EVERY effect point j of the restart's Provision (startup sweep, opening stores) the restarting process dies too and a third process restarts. Oracle: loaded only with exactly the vector of a complete accepted CRL of that history, no crl_*_tmp and no stray entry after Provision, no store directory removed.",
   note="Crash = process death (completed writes survive, nothing torn), as the property states. goleveldb's internal file operations are not individually crash points (only its API calls).",
   technique="exhaustive crash-point enumeration (fault injection at every effect point, SIGKILL + restart) on the implementation",
   design="DESIGN.md §4 C12, §3 E7", engine="effect-point shims (vos/vleveldb) + child processes"),
  "C18": dict(level="model_checking",
-  text="Lock-step explicit-state exploration of MapStore, LevelDbStore and a reference model (Go map + structs): all operation sequences (every insert goes through one issuer variable whose content changes, as the CRL reader does) over a 23-operation alphabet (start, 12 inserts, ext-meta, signer, locations, replace-with 3 pre-filled stores, close+reopen) to depth 3 (quick) / 5 (thorough), deduplicated on the model state; after every operation ALL getters (6 lookups incl. returned entry, meta, ext-meta, signer, locations, IsEmpty; error-vs-value shape) of both backends are compared with the model. Plus a value-shape round-trip sweep (non-ASCII / multi-valued / empty names, zero / negative / 2^159 serials, critical and empty extensions, UTC and Generalized dates, location shapes).",
+  text="Lock-step explicit-state exploration of MapStore, LevelDbStore and a reference model (Go map + structs): all operation sequences (every insert goes through one issuer variable whose content changes, as the CRL reader does) over a 23-operation alphabet (start, 12 inserts, ext-meta, signer, locations, replace-with 3 pre-filled stores, close+reopen) to depth 3 (quick) / 5 (thorough), deduplicated on the model state; after every operation ALL getters (6 lookups incl. returned entry, meta, ext-meta, signer, locations, IsEmpty; error-vs-value shape) of both backends are compared with the model. Plus a value-shape round-trip sweep (non-ASCII / multi-valued / empty names, zero / negative / 2^159 serials, critical and empty extensions, UTC and Generalized dates, location shapes incl. unsorted and repeated distribution points).",
   note="Times restricted to what a parsed CRL can contain (update times before 2050). One known finding: MapStore.IsEmpty (pinned by the repository's own test).",
   technique="explicit-state model checking: lock-step BFS over operation sequences against a reference model",
   design="DESIGN.md §4 C18", engine="history explorer (fw.BFS)"),
  "C01": dict(level="exploration",
-  text="Every listed serial of every scenario is probed with its own certificate through the real caddy module (reader -> store -> repository -> VerifyClientCertificate): A: all configurations source(3) x backend(2) x mode(4) x OCSP answer(3) x encoding with two list shapes; B: all list shapes N(1,2,3,5,40,300) x serial form(12) x entry extensions(3) x date form(2) with two configurations; cross-location cases (two similar crl_urls, configured file vs own CDP, own CDP unavailable) and history cells 'accepted list, then a refresh obtains an error page / garbage / a bad signature'; thorough adds a 100000-entry CRL on both backends with every position probed. Vacuity guard: an unlisted certificate must be accepted first.",
+  text="Every listed serial of every scenario is probed with its own certificate through the real caddy module (reader -> store -> repository -> VerifyClientCertificate): A: all configurations source(3) x backend(2) x mode(4) x OCSP answer(3) x encoding with two list shapes; B: all list shapes N(1,2,3,5,40,300) x serial form(12) x entry extensions(3) x date form(2) with two configurations; cross-location cases (two similar crl_urls, configured file vs own CDP, own CDP unavailable, crl_urls and crl_files together), issuers named in 9 shapes (attribute orders, multi-valued RDN, domainComponent, email + UID) and history cells 'accepted list, then a refresh obtains an error page / garbage / a bad signature'; thorough adds a 100000-entry CRL on both backends with every position probed. Vacuity guard: an unlisted certificate must be accepted first.",
   note="Bounded shape alphabet; the 10^6 scale of the statement is extrapolated from the per-entry loop being the same code for every entry.",
   technique="bounded-exhaustive enumeration of (configuration, list shape) scenarios with every listed position probed on the implementation",
   design="DESIGN.md §4 C01", engine="top-level world (caddy module)"),
  "C03": dict(level="model_checking",
-  text="The complete truth table mode(6) x OCSP outcome(5: no AIA, good, revoked, unreachable, reachable but unusable answer) x aia_strict(2) x CRL outcome(5: none known, listed, not listed, CDP unavailable, CDP unavailable + listed in a configured file) x cdp_strict(2) x backend(2) x chain shape(3) = 3600 cells, each a fresh Provision -> VerifyClientCertificate -> Cleanup on the real caddy module with scripted OCSP/CRL origins; oracle: reject <=> enabled mechanism reports revoked or (strict) unavailable; side-effect monitors (disabled / ocsp_only never touch CRL origin or work_dir and need no crl_config, crl_only never contacts OCSP); unset == prefer_ocsp == prefer_crl cell by cell.",
+  text="The complete truth table mode(6) x OCSP outcome(5: no AIA, good, revoked, unreachable, reachable but unusable answer) x aia_strict(2) x CRL outcome(6: none known, listed, not listed, CDP unavailable, CDP unavailable + listed in a configured file, listed in a configured crl_url) x cdp_strict(2) x backend(2) x chain shape(3) = 4320 cells, each a fresh Provision -> VerifyClientCertificate -> Cleanup on the real caddy module with scripted OCSP/CRL origins; oracle: reject <=> enabled mechanism reports revoked or (strict) unavailable; side-effect monitors (disabled / ocsp_only never touch CRL origin or work_dir and need no crl_config, crl_only never contacts OCSP); unset == prefer_ocsp == prefer_crl cell by cell.",
   note="Finite table enumerated completely (exhaustive is literal). Empty verifiedChains not judged.",
   technique="exhaustive enumeration of a finite configuration/outcome table on the implementation",
   design="DESIGN.md §4 C03", engine="top-level world (caddy module)"),
  "C19": dict(level="exploration",
-  text="Every configuration tuple over 14 option dimensions (incl. invalid values and misspelt keys at the 4 nesting levels) from: all singles, all pairs, the full product of valid mode x storage x signature mode x fetch mode x cdp_strict crossed with every other option (quick) / with the full product of the others (thorough), rendered as Caddyfile and as JSON, each loaded for real (UnmarshalCaddyfile / StrictUnmarshalJSON + Provision + Cleanup) and compared: both syntaxes equal, effective configuration (parsed fields, list options with two elements, and the store backend the provisioned repository really uses) equal to the documented meaning and defaults, invalid tuples rejected, valid tuples provision.",
+  text="Every configuration tuple over 14 option dimensions (incl. invalid values and misspelt keys at the 4 nesting levels) from: all singles, all pairs, the full product of valid mode x storage x signature mode x fetch mode x cdp_strict crossed with every other option (quick) / with the full product of the others (thorough), rendered as Caddyfile and as JSON, each loaded for real (UnmarshalCaddyfile / StrictUnmarshalJSON + Provision + Cleanup) and compared: both syntaxes equal, effective configuration (parsed fields, list options with two elements, and the store backend the provisioned repository really uses) equal to the documented meaning and defaults, invalid tuples rejected, valid tuples provision - also right after a rejected configuration on the same work_dir was cleaned up.",
   note="Configured CRLs are signed by the harness CA; under verify without the trusted certificate loading may legitimately fail (then only syntax agreement is judged).",
   technique="bounded-exhaustive configuration enumeration in both syntaxes against the documented meaning",
   design="DESIGN.md §4 C19", engine="top-level world (caddy module)"),
  "C11": dict(level="model_checking",
-  text="(1) Explicit-state BFS over histories {serve down | bad-signature{r} | parse-failure-after-entries{r} | unimplemented-critical-extension{r} | good{a} | good{}; probe-all; tick; background fetch completes; restart} to depth 5 (quick) / 12 (thorough) for fetch mode x backend, with a reference model of the list in force; oracle: a probe is reported revoked only if the list in force lists it (entries of rejected or superseded lists never revoke). (2) Exhaustive neighbourhood: one CRL of issuer A listing 7 serials (incl. >64-bit, 20-byte and a negative one), every arithmetic/byte/decimal neighbour serial probed under issuer A and under 7 other issuers (different DN, DN + '_<digits>' suffix, other case, extra RDN, same attributes in another order, repeated CN), both backends. The accepted lists carry no cRLNumber.",
+  text="(1) Explicit-state BFS over histories {serve down | bad-signature{r} | parse-failure-after-entries{r} | unimplemented-critical-extension{r} | good{a} | good{}; probe-all; tick; background fetch completes; restart} to depth 5 (quick) / 12 (thorough) for fetch mode x backend, with a reference model of the list in force; oracle: a probe is reported revoked only if the list in force lists it (entries of rejected or superseded lists never revoke); every history - merged or not - ends with all probes judged. (2) Exhaustive neighbourhood: one CRL of issuer A listing 7 serials (incl. >64-bit, 20-byte and a negative one), every arithmetic/byte/decimal neighbour serial probed under issuer A and under 7 other issuers (different DN, DN + '_<digits>' suffix, other case, extra RDN, same attributes in another order, repeated CN), both backends. The accepted lists carry no cRLNumber.",
   note="Up to 64-bit FNV key collisions (excluded by the property). Canonical key includes store and work_dir digests.",
   technique="explicit-state model checking over event histories against a reference model + exhaustive probe neighbourhood on the implementation",
   design="DESIGN.md §4 C11", engine="history explorer (fw.BFS)"),
  "C16": dict(level="model_checking",
-  text="Exhaustive matrix signature mode (unset, verify, verify_log, none) x signer (resolvable, unknown, wrong signature) x intake path (provision-time crl_file, provision-time crl_url, first CDP fetch active, first CDP fetch background, periodic refresh, refresh after restart, configured crl_file / crl_url re-provisioned on the same work_dir after a run under mode none) x backend x trusted signers {as needed, plus an unrelated CA}: 360 cells, each a short history on the real caddy module (Provision -> strict handshakes -> publish v2 -> tick on the virtual clock -> handshakes -> restart with origin down -> handshakes); oracle: the version in force at every probe equals what the policy demands; Provision must succeed whenever the mode accepts the configured CRL.",
+  text="Exhaustive matrix signature mode (unset, verify, verify_log, none) x signer (resolvable, unknown, wrong signature) x intake path (provision-time crl_file, provision-time crl_url, first CDP fetch active, first CDP fetch background, periodic refresh, refresh after restart, configured crl_file / crl_url re-provisioned on the same work_dir after a run under mode none, trusted-certificate file replaced between two runs) x backend x trusted signers {as needed, plus an unrelated CA}: 376 cells; every refresh path refreshes twice, each a short history on the real caddy module (Provision -> strict handshakes -> publish v2 -> tick on the virtual clock -> handshakes -> restart with origin down -> handshakes); oracle: the version in force at every probe equals what the policy demands; Provision must succeed whenever the mode accepts the configured CRL.",
   note="Finite table, enumerated completely. The real ticker goroutine is driven by the virtual clock.",
   technique="exhaustive configuration x history enumeration (finite state table) on the implementation under a virtual clock",
   design="DESIGN.md §4 C16", engine="top-level world (caddy module) + vsched"),
  "C10": dict(level="model_checking",
-  text="Explicit-state BFS over event histories {handshake(listed|clean), set-server(url, down|garbage|bad-signature|good), refresh tick (virtual clock), background-fetch completes (held thread released), restart} to depth 4 (quick) / 6 (thorough) for all 192 configurations CDP set(8: http, https, ldap, ldap+http, two http, file, a 3-character URI, a 2-character URI + http) x fetch mode(2) x signature mode(3) x backend(2) x strict(2), on the real CRLRevocationChecker. After every handshake the verdict is compared with a reference model of 'a CRL for this distribution-point set is in force': strict accepts only then, lenient never denies an unlisted certificate. Plus a single-fault enumeration over the first load (an error injected at each file / database effect point, both backends) followed by two handshakes of an unlisted certificate. Canonical state key includes store content and work_dir digests (left-over data is state).",
+  text="Explicit-state BFS over event histories {handshake(listed|clean), set-server(url, down|garbage|bad-signature|good), refresh tick (virtual clock), background-fetch completes (held thread released), restart} to depth 4 (quick) / 6 (thorough) for all 192 configurations CDP set(8: http, https, ldap, ldap+http, two http, file, a 3-character URI, a 2-character URI + http) x fetch mode(2) x signature mode(3) x backend(2) x strict(2), on the real CRLRevocationChecker. After every handshake the verdict is compared with a reference model of 'a CRL for this distribution-point set is in force': strict accepts only then, lenient never denies an unlisted certificate. Plus a single-fault enumeration over the first load (an error injected at each file / database effect point, both backends) followed by two handshakes of an unlisted certificate. Canonical state key includes store content and work_dir digests (left-over data is state); every history - merged or not - ends with both handshakes judged after the key was taken.",
   note="All served CRL variants list the same serials so that only in-force-ness and listed-ness enter the oracle; which of several URLs is asked first is mirrored, not judged.",
   technique="explicit-state model checking (BFS over event histories with canonical state keys) of the implementation against a reference model, background threads as explicit events",
   design="DESIGN.md §4 C10", engine="history explorer (fw.BFS) + vsched held threads + virtual clock"),
@@ -72,32 +72,32 @@ CHECKS = {
   technique="exhaustive fault-point enumeration + stateless schedule exploration with fault injection on the implementation",
   design="DESIGN.md §4 C09", engine="vsched DFS + effect-point fault injection"),
  "C02": dict(level="exploration",
-  text="All responder lists of length 0..3 (quick, 1111 lists) / 0..4 (thorough, 11111 lists) over 10 behaviours (good, revoked, unknown, HTTP 500 + garbage, connection refused, non-OCSP body, ldap:// URL, https answering good, a good answer signed by an unauthorised certificate, an authentic good answer about another serial) x aia_strict x default cache duration {0, 10m} x nextUpdate {absent, +1h} x chain shape (same / other key type, with / without AKI, issuer certificate not among the chains), each a 3-event history (all responders down, lookup; responders as listed, lookup; all down, lookup) on the real OCSPRevocationChecker with a scripted transport, compared with a boring reference model (first authentic answer in list order decides; strict rule; cache rule).",
+  text="All responder lists of length 0..3 (quick, 1464 lists) / 0..4 (thorough, 16105 lists) over 11 behaviours (good, revoked, unknown, HTTP 500 + garbage, connection refused, non-OCSP body, ldap:// URL, https answering good, a good answer signed by an unauthorised certificate, an authentic good answer about another serial, an authentic revoked answer of about 6 KiB) x aia_strict x default cache duration {0, 10m} x nextUpdate {absent, +1h} x chain shape (same / other key type, with / without AKI, issuer certificate not among the chains), each a 3-event history (all responders down, lookup; responders as listed, lookup; all down, lookup) on the real OCSPRevocationChecker with a scripted transport, compared with a boring reference model (first authentic answer in list order decides; strict rule; cache rule).",
   note="OCSP status 'unknown' and strict-mode denials that the reference would accept are not judged (the statement is one-directional there). Mode composition is C03's business.",
   technique="exhaustive enumeration of environment behaviours (responder lists x flags) with 2-event histories against a reference model",
   design="DESIGN.md §4 C02", engine="configuration/behaviour enumerator"),
  "C14": dict(level="model_checking",
-  text="Explicit-state BFS over event histories {lookup(c1|c1'|c2, V1|V2), advance(L/2|L+1s|L-1s), responder flips to revoked, responder down/up, Cleanup(V2)} on the real checker + cache2go under a shared virtual clock, for 6 cache configurations, to depth 5 (quick) / 8 (thorough); states deduplicated by a canonical key; plus issuer-pair histories for names which look alike once rendered (TeletexString octets that are not valid UTF-8); invariants evaluated on every transition against a reference model: a hit only for the same (encoded issuer name, serial) - the two issuers' names differ on the wire only and collide under lossy renderings -, never older than its lifetime whatever the read pattern, never with zero lifetime, never right after a failed query.",
+  text="Explicit-state BFS over event histories {lookup(c1|c1'|c2, V1|V2), advance(L/2|L+1s|L-1s), responder flips to revoked, responder down/up, Cleanup(V2)} on the real checker + cache2go under a shared virtual clock, for 6 cache configurations, to depth 5 (quick) / 8 (thorough); states deduplicated by a canonical key; plus issuer-pair histories for names which look alike once rendered (TeletexString octets that are not valid UTF-8) and two instances of the caddy module with different cache durations; every history - merged into a known state or not - ends with a judged lookup of every certificate; invariants evaluated on every transition against a reference model: a hit only for the same (encoded issuer name, serial) - the two issuers' names differ on the wire only and collide under lossy renderings -, never older than its lifetime whatever the read pattern, never with zero lifetime, never right after a failed query.",
   note="Cache hit is observed as 'no transport request during the lookup'. The canonical key buckets ages relative to L (a coarser key would merge states with different futures; the buckets keep <L/2, <=L, >L and last-read apart).",
   technique="explicit-state model checking (BFS over event histories with canonical state keys) directly on the implementation under a virtual clock",
   design="DESIGN.md §4 C14", engine="history explorer (fw.BFS)"),
  "C04": dict(level="exploration",
-  text="Exhaustive matrix signature algorithm (10 supported + RSA-PSS + Ed25519 + unknown) x signer (12 kinds incl. an end-entity alone in its chain naming itself, sibling CA with identical DN, the end-entity's own key, CA without cRLSign, the CA above the issuing CA, another CA configured as trusted signer) x AKI form (8, incl. issuer+serial with a URI / dNSName GeneralName) x intake path (first load, refresh, refresh after a handshake presented the signer) x good/bad signature; 47 further algorithm identifiers of the PKI world (legacy digests, DSA, PSS, EdDSA, SHA-3, RIPEMD, BSI plain ECDSA, GOST, SM2, OIW aliases) with an EC and an RSA signer; plus EVERY single-bit flip of tbsCertList|signatureAlgorithm|signatureValue of an EC and an RSA seed (first load) and every flip inside the signed content presented after the genuine document was loaded and refreshed once, each driven through the real Repository (AddCRL / UpdateCRL, strict lookup as the in-force probe). Oracle (soundness direction): in force => authentic by construction.",
+  text="Exhaustive matrix signature algorithm (10 supported + RSA-PSS + Ed25519 + unknown) x signer (14 kinds incl. a trusted signer whose name renders like the issuer's, an end-entity alone in its chain naming itself, sibling CA with identical DN, the end-entity's own key, CA without cRLSign, the CA above the issuing CA, another CA configured as trusted signer) x AKI form (8, incl. issuer+serial with a URI / dNSName GeneralName) x intake path (first load, refresh, refresh after a handshake presented the signer) x good/bad signature; 47 further algorithm identifiers of the PKI world (legacy digests, DSA, PSS, EdDSA, SHA-3, RIPEMD, BSI plain ECDSA, GOST, SM2, OIW aliases) with an EC and an RSA signer; plus EVERY single-bit flip of tbsCertList|signatureAlgorithm|signatureValue of an EC and an RSA seed (first load) and every flip inside the signed content presented after the genuine document was loaded and refreshed once, each driven through the real Repository (AddCRL / UpdateCRL, strict lookup as the in-force probe). Oracle (soundness direction): in force => authentic by construction.",
   note="Entitlement reference is computed from how each case was built, independent of the implementation; completeness (authentic => accepted) is counted, not judged.",
   technique="bounded-exhaustive input enumeration (signer/algorithm/AKI matrix + complete single-bit-flip neighbourhood) on the real intake path",
   design="DESIGN.md §4 C04", engine="shape enumerator + 1-point neighbourhood"),
  "C05": dict(level="exploration",
-  text="Exhaustive matrix signer (16 kinds: issuer, delegated responders with OCSPSigning / any / clientAuth / no EKU, with and without embedded certificate, the client's own certificate incl. clients named like their issuer, strangers, sibling CA and its responder) x serial (this/other) x status (good/revoked/unknown) plus OCSP error statuses plus two-step histories (a client of a same-named sibling CA is looked up first on the same checker) plus EVERY single-bit flip of authentic good and revoked responses, each through the real OCSPRevocationChecker with aia_strict on; two-step history per case (call, responder down, call) observes both 'decided the verdict' and 'was cached'. Oracle: used or cached => authentic.",
+  text="Exhaustive matrix signer (16 kinds: issuer, delegated responders with OCSPSigning / any / clientAuth / no EKU, with and without embedded certificate, the client's own certificate incl. clients named like their issuer, strangers, sibling CA and its responder) x serial (this/other) x status (good/revoked/unknown) plus OCSP error statuses plus two-step histories (a client of a same-named sibling CA is looked up first on the same checker; the bytes of an answer about one certificate replayed for another), responders of another CA configured as trusted responder certificates, plus EVERY single-bit flip of authentic good and revoked responses, each through the real OCSPRevocationChecker with aia_strict on; two-step history per case (call, responder down, call) observes both 'decided the verdict' and 'was cached'. Oracle: used or cached => authentic.",
   note="Authenticity by construction; for bit-flipped responses by an independent x/crypto/ocsp verification against the issuer for this serial.",
   technique="bounded-exhaustive input enumeration (signer/serial/status matrix + complete single-bit-flip neighbourhood) with a 2-event history per case",
   design="DESIGN.md §4 C05", engine="shape enumerator + 1-point neighbourhood"),
  "C06": dict(level="exploration",
-  text="Bounded-exhaustive shape enumeration of generated CRLs through the real StreamingCRLFileReader with a recording processor, compared field by field (callbacks, order, digest, signature bits, extensions) with a whole-document encoding/asn1 reference decoder; full product of the core shape dimensions (incl. critical issuingDistributionPoint / issuerAltName / freshestCRL / authorityInfoAccess / delta / private extensions, which must be rejected), one-at-a-time crossing of the rest (incl. lists whose entries alternate between having and not having extensions, and update times at the edges of the UTCTime range: 1950, 1951, 1999, 2000, 2049), an alignment sweep that moves every element boundary across every offset of the 4 KiB buffered-reader window (and PEM line / base64 chunk windows), for an EC and an RSA-2048 signature, and a short-read exploration (every read of the file answers with fewer bytes than asked at one / two chosen points). Right level: the property quantifies over inputs; the space of shapes within the bounds is enumerated completely, not sampled.",
+  text="Bounded-exhaustive shape enumeration of generated CRLs through the real StreamingCRLFileReader with a recording processor, compared field by field (callbacks, order, digest, signature bits, extensions) with a whole-document encoding/asn1 reference decoder; full product of the core shape dimensions plus one list above 16 MiB (four length octets) (incl. critical issuingDistributionPoint / issuerAltName / freshestCRL / authorityInfoAccess / delta / private extensions, which must be rejected), one-at-a-time crossing of the rest (incl. lists whose entries alternate between having and not having extensions, and update times at the edges of the UTCTime range: 1950, 1951, 1999, 2000, 2049), an alignment sweep that moves every element boundary across every offset of the 4 KiB buffered-reader window (and PEM line / base64 chunk windows), for an EC and an RSA-2048 signature, and a short-read exploration (every read of the file answers with fewer bytes than asked at one / two chosen points). Right level: the property quantifies over inputs; the space of shapes within the bounds is enumerated completely, not sampled.",
   note="Reference decoder = encoding/asn1 + encoding/pem (trusted). Shapes outside the stated alphabet (e.g. 4-length-byte documents in quick) are not covered.",
   technique="bounded-exhaustive input-shape enumeration against a reference decoder (small-scope exploration of the parser's input space)",
   design="DESIGN.md §4 C06", engine="shape enumerator"),
  "C07": dict(level="exploration",
-  text="Exhaustive enumeration of hostile inputs around valid seeds: every truncation, every single-bit flip / hostile byte substitution, and a token DFS that at every TLV boundary (all nesting levels) tries every tag x length-form token (all long forms 0x81..0x8f) both replacing the header and as a lazily extended continuation, plus a PEM framing alphabet, 47 unimplemented signature algorithm identifiers (outer / inner / both, with / without NULL parameters) and hostile AKI/SKI/GeneralName/RDN bytes for the chain matcher; monitors: panic, allocation delta, process death (fatal error) and hang, in rlimit-ed worker processes.",
+  text="Exhaustive enumeration of hostile inputs around valid seeds: every truncation, every single-bit flip / hostile byte substitution, and a token DFS that at every TLV boundary (all nesting levels) tries every tag x length-form token (all long forms 0x81..0x8f) both replacing the header and as a lazily extended continuation, plus a PEM framing alphabet, 47 unimplemented signature algorithm identifiers (outer / inner / both, with / without NULL parameters), CRL issuer names with every attribute value re-typed (through the chain matcher) and hostile AKI/SKI/GeneralName/RDN bytes for the chain matcher; monitors: panic, allocation delta, process death (fatal error) and hang, in rlimit-ed worker processes.",
   note="Allocation bound 1 MiB + 2048 x input length; seeds and alphabets as listed in the evidence; depth-2 continuations only over a sub-alphabet.",
   technique="bounded-exhaustive exploration of the parser's decision tree under an adversarial byte environment (lazy token DFS + complete 1-point neighbourhoods) with totality/allocation monitors",
   design="DESIGN.md §4 C07", engine="token DFS / neighbourhood enumerator"),
